@@ -1,0 +1,207 @@
+//! Executable oracle for the export round trip (C17), bounded: every save function on a grid of shapes, element types and
+//! special values, read back with the standard readers of the csv / arrow / parquet crates.
+//! Compiled only with `--features verif,csv,arrow,parquet`; a failing case prints `WITNESS {json}` before panicking.
+#![cfg(all(feature = "verif", feature = "csv", feature = "arrow", feature = "parquet"))]
+
+use arrow::array::{Array, Float64Array, UInt32Array};
+use arrow::datatypes::DataType;
+use arrow::record_batch::RecordBatch;
+use burn::backend::NdArray;
+use burn::tensor::{Tensor, TensorData};
+use mini_mcmc::io::arrow::save_arrow;
+use mini_mcmc::io::csv::{save_csv, save_csv_tensor};
+use mini_mcmc::io::parquet::{save_parquet, save_parquet_tensor};
+use ndarray::Array3;
+use std::fs::File;
+
+fn witness(s: String) -> ! {
+    println!("WITNESS {s}");
+    panic!("oracle violated: {s}");
+}
+
+fn shapes() -> Vec<(usize, usize, usize)> {
+    let mut v = vec![];
+    for a in 0..4usize {
+        for b in [0usize, 1, 2, 5] {
+            for c in [0usize, 1, 3] {
+                v.push((a, b, c));
+            }
+        }
+    }
+    v.push((6, 40, 8));
+    v
+}
+const SPECIAL64: [f64; 12] = [0.0, -0.0, 1.5, -2.25, f64::MIN_POSITIVE, 5e-324, f64::MAX, f64::MIN, f64::INFINITY, f64::NEG_INFINITY, f64::NAN, 0.1];
+const SPECIAL32: [f32; 12] = [0.0, -0.0, 1.5, -2.25, f32::MIN_POSITIVE, 1e-45, f32::MAX, f32::MIN, f32::INFINITY, f32::NEG_INFINITY, f32::NAN, 0.1];
+fn val64(c: usize, o: usize, j: usize) -> f64 { SPECIAL64[(7 * c + 3 * o + j) % 12] }
+fn val32(c: usize, o: usize, j: usize) -> f32 { SPECIAL32[(7 * c + 3 * o + j) % 12] }
+fn same64(a: f64, b: f64) -> bool { a.to_bits() == b.to_bits() || (a.is_nan() && b.is_nan()) }
+fn same32(a: f32, b: f32) -> bool { a.to_bits() == b.to_bits() || (a.is_nan() && b.is_nan()) }
+
+fn tmp(ext: &str) -> (tempfile::TempDir, String) {
+    let d = tempfile::tempdir().unwrap();
+    let p = d.path().join(format!("out.{ext}")).to_str().unwrap().to_string();
+    (d, p)
+}
+
+/// reads a CSV file: (header, rows)
+fn read_csv(path: &str) -> (Vec<String>, Vec<Vec<String>>) {
+    let mut rdr = csv::ReaderBuilder::new().has_headers(true).flexible(true).from_path(path).unwrap();
+    let header: Vec<String> = rdr.headers().unwrap().iter().map(|s| s.to_string()).collect();
+    let rows = rdr.records().map(|r| r.unwrap().iter().map(|s| s.to_string()).collect()).collect();
+    (header, rows)
+}
+fn want_header(first: &str, second: &str, nd: usize) -> Vec<String> {
+    let mut h = vec![first.to_string(), second.to_string()];
+    h.extend((0..nd).map(|j| format!("dim_{j}")));
+    h
+}
+
+fn check_csv<T: std::fmt::Display + Copy, P: Fn(&str) -> Option<T>, S: Fn(T, T) -> bool>(what: &str, shape: (usize, usize, usize), cell: &dyn Fn(usize, usize, usize) -> T, path: &str, parse: P, same: S) {
+    let (nc, no, nd) = shape;
+    let (header, rows) = read_csv(path);
+    let ctx = format!("\"oracle\":\"c17\",\"function\":\"{what}\",\"shape\":[{nc},{no},{nd}]");
+    if header != want_header("chain", "observation", nd) {
+        witness(format!("{{{ctx},\"what\":\"header is {header:?}\"}}"));
+    }
+    if rows.len() != nc * no {
+        witness(format!("{{{ctx},\"what\":\"{} data rows for {} cells\"}}", rows.len(), nc * no));
+    }
+    for c in 0..nc {
+        for o in 0..no {
+            let row = &rows[c * no + o];
+            if row.len() != 2 + nd || row[0] != c.to_string() || row[1] != o.to_string() {
+                witness(format!("{{{ctx},\"row\":{},\"what\":\"row {row:?} is not labelled chain {c}, observation {o} with {nd} values\"}}", c * no + o));
+            }
+            for j in 0..nd {
+                let want = cell(c, o, j);
+                match parse(&row[2 + j]) {
+                    Some(got) if same(got, want) => {}
+                    _ => witness(format!("{{{ctx},\"cell\":[{c},{o},{j}],\"text\":{:?},\"stored\":\"{want}\",\"what\":\"the text does not parse back to the stored value\"}}", row[2 + j])),
+                }
+            }
+        }
+    }
+}
+
+#[test]
+fn oracle_c17_csv_round_trip() {
+    for shape in shapes() {
+        let (nc, no, nd) = shape;
+        let (_d, p) = tmp("csv");
+        let a64 = Array3::from_shape_fn(shape, |(c, o, j)| val64(c, o, j));
+        save_csv(&a64, &p).unwrap();
+        check_csv("save_csv<f64>", shape, &|c, o, j| val64(c, o, j), &p, |s| s.parse::<f64>().ok(), same64);
+        let a32 = Array3::from_shape_fn(shape, |(c, o, j)| val32(c, o, j));
+        save_csv(&a32, &p).unwrap();
+        check_csv("save_csv<f32>", shape, &|c, o, j| val32(c, o, j), &p, |s| s.parse::<f32>().ok(), same32);
+        let ai = Array3::from_shape_fn(shape, |(c, o, j)| ((c as i32 - 2) * 1000 + (o as i32) * 7).wrapping_sub((j as i32).wrapping_mul(i32::MAX / 3)));
+        save_csv(&ai, &p).unwrap();
+        check_csv("save_csv<i32>", shape, &|c, o, j| ((c as i32 - 2) * 1000 + (o as i32) * 7).wrapping_sub((j as i32).wrapping_mul(i32::MAX / 3)), &p, |s| s.parse::<i32>().ok(), |a, b| a == b);
+        let au = Array3::from_shape_fn(shape, |(c, o, j)| usize::MAX / (1 + c + 2 * o + 3 * j));
+        save_csv(&au, &p).unwrap();
+        check_csv("save_csv<usize>", shape, &|c, o, j| usize::MAX / (1 + c + 2 * o + 3 * j), &p, |s| s.parse::<usize>().ok(), |a, b| a == b);
+        // tensor entry point (chain x observation x dimension), f32 backend
+        if nc * no * nd > 0 {
+            let flat: Vec<f32> = (0..nc * no * nd).map(|i| val32(i / (no * nd), (i / nd) % no, i % nd)).collect();
+            let t = Tensor::<NdArray, 3>::from_data(TensorData::new(flat, [nc, no, nd]), &Default::default());
+            save_csv_tensor(t, &p).unwrap();
+            check_csv("save_csv_tensor", shape, &|c, o, j| val32(c, o, j), &p, |s| s.parse::<f32>().ok(), same32);
+        }
+    }
+}
+
+fn check_table(what: &str, first: &str, second: &str, shape: (usize, usize, usize), cell: &dyn Fn(usize, usize, usize) -> f64, fields: Vec<(String, DataType, bool)>, batches: Vec<RecordBatch>) {
+    let (na, nb, nd) = shape;
+    let ctx = format!("\"oracle\":\"c17\",\"function\":\"{what}\",\"shape\":[{na},{nb},{nd}]");
+    let want: Vec<(String, DataType, bool)> = want_header(first, second, nd).into_iter().enumerate().map(|(i, n)| (n, if i < 2 { DataType::UInt32 } else { DataType::Float64 }, false)).collect();
+    if fields != want {
+        witness(format!("{{{ctx},\"what\":\"schema is {fields:?}\"}}"));
+    }
+    let mut r = 0usize;
+    for b in &batches {
+        if b.num_columns() != 2 + nd {
+            witness(format!("{{{ctx},\"what\":\"a batch has {} columns\"}}", b.num_columns()));
+        }
+        let ia = b.column(0).as_any().downcast_ref::<UInt32Array>().unwrap();
+        let ib = b.column(1).as_any().downcast_ref::<UInt32Array>().unwrap();
+        for k in 0..b.num_rows() {
+            let (a, bb) = (r / nb.max(1), r % nb.max(1));
+            if ia.value(k) as usize != a || ib.value(k) as usize != bb || ia.is_null(k) || ib.is_null(k) {
+                witness(format!("{{{ctx},\"row\":{r},\"what\":\"row is labelled ({}, {}) instead of {first} {a}, {second} {bb}\"}}", ia.value(k), ib.value(k)));
+            }
+            for j in 0..nd {
+                let col = b.column(2 + j).as_any().downcast_ref::<Float64Array>().unwrap();
+                let want = cell(a, bb, j);
+                if col.is_null(k) || !same64(col.value(k), want) {
+                    witness(format!("{{{ctx},\"cell\":[{a},{bb},{j}],\"got\":\"{}\",\"stored\":\"{want}\",\"what\":\"dim column does not hold the stored value widened to f64\"}}", col.value(k)));
+                }
+            }
+            r += 1;
+        }
+    }
+    if r != na * nb {
+        witness(format!("{{{ctx},\"what\":\"{r} rows for {} cells\"}}", na * nb));
+    }
+}
+fn read_arrow(path: &str) -> (Vec<(String, DataType, bool)>, Vec<RecordBatch>) {
+    let rdr = arrow::ipc::reader::FileReader::try_new(File::open(path).unwrap(), None).unwrap();
+    let fields = rdr.schema().fields().iter().map(|f| (f.name().clone(), f.data_type().clone(), f.is_nullable())).collect();
+    (fields, rdr.map(|b| b.unwrap()).collect())
+}
+fn read_parquet(path: &str) -> (Vec<(String, DataType, bool)>, Vec<RecordBatch>) {
+    let b = parquet::arrow::arrow_reader::ParquetRecordBatchReaderBuilder::try_new(File::open(path).unwrap()).unwrap();
+    let fields = b.schema().fields().iter().map(|f| (f.name().clone(), f.data_type().clone(), f.is_nullable())).collect();
+    (fields, b.build().unwrap().map(|b| b.unwrap()).collect())
+}
+
+#[test]
+fn oracle_c17_arrow_and_parquet_round_trip() {
+    for shape in shapes() {
+        let (na, nb, nd) = shape;
+        let a64 = Array3::from_shape_fn(shape, |(c, o, j)| val64(c, o, j));
+        let a32 = Array3::from_shape_fn(shape, |(c, o, j)| val32(c, o, j));
+        let (_d, p) = tmp("arrow");
+        save_arrow(&a64, &p).unwrap();
+        let (f, b) = read_arrow(&p);
+        check_table("save_arrow<f64>", "chain", "observation", shape, &|c, o, j| val64(c, o, j), f, b);
+        save_arrow(&a32, &p).unwrap();
+        let (f, b) = read_arrow(&p);
+        check_table("save_arrow<f32>", "chain", "observation", shape, &|c, o, j| val32(c, o, j) as f64, f, b);
+        let (_d2, q) = tmp("parquet");
+        save_parquet(&a64, &q).unwrap();
+        let (f, b) = read_parquet(&q);
+        check_table("save_parquet<f64>", "chain", "observation", shape, &|c, o, j| val64(c, o, j), f, b);
+        save_parquet(&a32, &q).unwrap();
+        let (f, b) = read_parquet(&q);
+        check_table("save_parquet<f32>", "chain", "observation", shape, &|c, o, j| val32(c, o, j) as f64, f, b);
+        // tensor entry point: [observation, chain, dim]
+        if na * nb * nd > 0 {
+            let flat: Vec<f32> = (0..na * nb * nd).map(|i| val32(i / (nb * nd), (i / nd) % nb, i % nd)).collect();
+            let t = Tensor::<NdArray, 3>::from_data(TensorData::new(flat, [na, nb, nd]), &Default::default());
+            save_parquet_tensor::<NdArray, _, f32>(&t, &q).unwrap();
+            let (f, b) = read_parquet(&q);
+            check_table("save_parquet_tensor", "observation", "chain", shape, &|c, o, j| val32(c, o, j) as f64, f, b);
+        }
+    }
+}
+
+/// A path that cannot be written yields an error, not a panic or a partial success.
+#[test]
+fn oracle_c17_unwritable_path_is_an_error() {
+    let a = Array3::from_shape_fn((2, 3, 2), |(c, o, j)| val64(c, o, j));
+    let bad = "/nonexistent_dir_for_verif/sub/out.bin";
+    let t = || Tensor::<NdArray, 3>::from_data(TensorData::new(vec![1.0f32; 12], [2, 3, 2]), &Default::default());
+    let results: Vec<(&str, bool)> = vec![
+        ("save_csv", std::panic::catch_unwind(|| save_csv(&a, bad).is_err()).unwrap_or(false)),
+        ("save_csv_tensor", std::panic::catch_unwind(|| save_csv_tensor(t(), bad).is_err()).unwrap_or(false)),
+        ("save_arrow", std::panic::catch_unwind(|| save_arrow(&a, bad).is_err()).unwrap_or(false)),
+        ("save_parquet", std::panic::catch_unwind(|| save_parquet(&a, bad).is_err()).unwrap_or(false)),
+        ("save_parquet_tensor", std::panic::catch_unwind(|| save_parquet_tensor::<NdArray, _, f32>(&t(), bad).is_err()).unwrap_or(false)),
+    ];
+    for (f, ok) in results {
+        if !ok {
+            witness(format!("{{\"oracle\":\"c17\",\"function\":\"{f}\",\"path\":\"{bad}\",\"what\":\"an unwritable path did not yield Err (panic or Ok)\"}}"));
+        }
+    }
+}
